@@ -59,11 +59,10 @@ func genResolverSrc() {
 		"goast":     parseNoComments(filepath.Join(*repo, "decorator/resolver/goast/resolver.go")),
 		"decorator": df,
 	}
+	// gotypes.ResolveIdent, goast.ResolveIdent and resolvePath are no longer pinned by hash: they are
+	// translated (decision.go -> Gen/DecisionSrc.v) and proved to compute the models
 	want := map[string]string{
-		"gotypes.ResolveIdent":  "GOTYPES_RESOLVEIDENT",
-		"goast.ResolveIdent":    "GOAST_RESOLVEIDENT",
 		"goast.imports":         "GOAST_IMPORTS",
-		"decorator.resolvePath": "DEC_RESOLVEPATH",
 		"decorator.stripVendor": "DEC_STRIPVENDOR",
 	}
 	var keys []string
